@@ -1578,6 +1578,7 @@ Proof.
   destruct (length_loop (N.of_nat (length bs)) (drop_leading_newlines evs) 0) as [raw stopped].
   cbn [fst] in Hl.
   destruct (N.ltb_spec (N.of_nat (length bs)) raw) as [Hlt|_]; [lia|].
+  destruct (negb (has_example 0 (upto_end_top (drop_leading_newlines evs))));
   destruct (N.of_nat (length (trim_blank_rev (frev (firstn (N.to_nat raw) bs)))) =? 0)%N;
     (destruct stopped; [discriminate|]; destruct o; [discriminate|discriminate|exfalso; apply Hp; reflexivity]).
 Qed.
@@ -1625,12 +1626,14 @@ Proof.
   intros bs n. unfold schema_len.
   destruct (scan true bs) as [evs o].
   destruct (length_loop (N.of_nat (length bs)) (drop_leading_newlines evs) 0) as [raw stopped].
-  assert (Hk : (if (N.of_nat (length bs) <? raw)%N then VPanic
+  assert (Hk : (if negb (has_example 0 (upto_end_top (drop_leading_newlines evs))) then VErr code_empty_schema 0
+                else if (N.of_nat (length bs) <? raw)%N then VPanic
                 else if (N.of_nat (length (trim_blank_rev (frev (firstn (N.to_nat raw) bs)))) =? 0)%N
                      then VErr code_empty_schema 0
                      else VLen (N.of_nat (length (trim_blank_rev (frev (firstn (N.to_nat raw) bs)))))) = VLen n ->
                (0 < n)%N).
-  { destruct (N.of_nat (length bs) <? raw)%N; [discriminate|].
+  { destruct (negb (has_example 0 (upto_end_top (drop_leading_newlines evs)))); [discriminate|].
+    destruct (N.of_nat (length bs) <? raw)%N; [discriminate|].
     destruct (N.eqb_spec (N.of_nat (length (trim_blank_rev (frev (firstn (N.to_nat raw) bs))))) 0) as [E|E];
       [discriminate|]. intros H. inversion H; subst. lia. }
   destruct stopped; [exact Hk|]. destruct o; [exact Hk|discriminate|discriminate].
@@ -1645,13 +1648,15 @@ Proof.
   destruct (scan true bs) as [evs o].
   destruct (length_loop (N.of_nat (length bs)) (drop_leading_newlines evs) 0) as [raw stopped].
   pose proof (len_prefix_gen bs (N.to_nat raw)) as Hg. cbn zeta in Hg.
-  assert (Hk : (if (N.of_nat (length bs) <? raw)%N then VPanic
+  assert (Hk : (if negb (has_example 0 (upto_end_top (drop_leading_newlines evs))) then VErr code_empty_schema 0
+                else if (N.of_nat (length bs) <? raw)%N then VPanic
                 else if (N.of_nat (length (trim_blank_rev (frev (firstn (N.to_nat raw) bs)))) =? 0)%N
                      then VErr code_empty_schema 0
                      else VLen (N.of_nat (length (trim_blank_rev (frev (firstn (N.to_nat raw) bs)))))) = VLen n ->
                (N.to_nat n <= length bs)%nat /\
                (forall c, nth_error bs (N.to_nat n - 1) = Some c -> is_blank c = false)).
-  { destruct (N.of_nat (length bs) <? raw)%N; [discriminate|].
+  { destruct (negb (has_example 0 (upto_end_top (drop_leading_newlines evs)))); [discriminate|].
+    destruct (N.of_nat (length bs) <? raw)%N; [discriminate|].
     destruct (N.of_nat (length (trim_blank_rev (frev (firstn (N.to_nat raw) bs)))) =? 0)%N; [discriminate|].
     intros H. inversion H; subst.
     rewrite Nat2N.id in *. destruct Hg as [G1 G2]. split; [exact G1|]. intros c Hc. apply G2; [exact Hc|lia]. }
